@@ -51,8 +51,30 @@ def atomic_defaults(steps, warmup=0, decay=0, *, seed=0):
   return targets.Rec('atomic_defaults', [('steps', steps), ('warmup', warmup), ('decay', decay), ('seed', seed)], (), {})
 
 
+_LD = [7]
+
+
+def list_default(x=None, y=_LD, z=_LD):
+  return (x, y, z)
+
+
 def scenario_pairs(name):
   """Hand-made pairs (a, b, expect_equal)."""
+  if name == 'default_alias':
+    # an explicit argument IS the (mutable) default object of another, unset parameter - read off
+    # the configuration itself (`cfg.x = cfg.y`): a deep copy is still equal to its original
+    f = graphs.node_fn(1, 0)
+    for wrap in (lambda c: c, lambda c: fdl.Config(f, p=[c], q={'k': c})):
+      c = fdl.Config(list_default)
+      c.x = c.y
+      yield wrap(c), copy.deepcopy(wrap(c)), True
+      d = fdl.Config(list_default, z=[7])
+      d.x = d.y
+      yield wrap(d), copy.deepcopy(wrap(d)), True
+      e = fdl.Config(list_default)
+      e.x = [7]                          # equal to the default, NOT the default object
+      yield wrap(c), wrap(e), False
+    return
   if name == 'same_count_different_keys':
     # both sides set the same NUMBER of arguments, but different ones; the argument set only on
     # the left happens to equal its default
@@ -71,17 +93,16 @@ def scenario_pairs(name):
     import collections
     f = graphs.node_fn(1, 0)
     g = graphs.node_fn(1, 1)
-    # (where Python itself calls the two containers equal and nothing but their type differs -
-    # defaultdict vs dict, a namedtuple of literals vs a tuple of literals - the property's
-    # "different argument values" does not decide the answer: expectation None = only "does not
-    # raise, is symmetric, != is the negation")
+    # (also where Python itself calls the two containers equal and nothing but their type differs:
+    # a defaultdict vs a dict, a named tuple of literals vs a tuple of literals - repaired, see
+    # known_findings.json `eq-value-types`)
     for inner, opaque in ((lambda: fdl.Config(g, p=1), False), (lambda: [1], False), (lambda: 7, True)):
-      yield fdl.Config(f, p=graphs.NT(inner(), 2)), fdl.Config(f, p=(inner(), 2)), (None if opaque else False)
-      yield fdl.Config(f, p=(inner(), 2)), fdl.Config(f, p=graphs.NT(inner(), 2)), (None if opaque else False)
+      yield fdl.Config(f, p=graphs.NT(inner(), 2)), fdl.Config(f, p=(inner(), 2)), False
+      yield fdl.Config(f, p=(inner(), 2)), fdl.Config(f, p=graphs.NT(inner(), 2)), False
       dd = collections.defaultdict(list)
       dd['k'] = inner()
-      yield fdl.Config(f, p=dd), fdl.Config(f, p={'k': inner()}), None
-      yield fdl.Config(f, p={'k': inner()}), fdl.Config(f, p=dd), None
+      yield fdl.Config(f, p=dd), fdl.Config(f, p={'k': inner()}), False
+      yield fdl.Config(f, p={'k': inner()}), fdl.Config(f, p=dd), False
       yield fdl.Config(f, p=graphs.NT(inner(), 2)), fdl.Config(f, p=graphs.NT(inner(), 2)), True
       dd2 = collections.defaultdict(list)
       dd2['k'] = inner()
@@ -89,7 +110,7 @@ def scenario_pairs(name):
       yield fdl.Config(f, p=[inner(), 2]), fdl.Config(f, p=(inner(), 2)), False
       shared = inner()
       yield (fdl.Config(f, p=graphs.NT(shared, 2), q=shared), fdl.Config(f, p=(inner(), 2), q=inner()),
-             (None if opaque else False))
+             False)
     return
   if name == 'namedtuple_subclass':
     # sharing that runs through a SUBCLASS of a namedtuple class (and a sub-subclass)
@@ -149,6 +170,8 @@ def cases(tier, r):
   yield 'scenario', {'scenario': 'namedtuple_subclass', 'seed': 0}
   yield 'scenario', {'scenario': 'same_count_different_keys', 'seed': 0}
   yield 'scenario', {'scenario': 'mixed_containers', 'seed': 0}
+  yield 'scenario', {'scenario': 'default_alias', 'seed': 0}
+  yield 'scenario', {'scenario': 'transitive_mixed', 'seed': 0}
   # the same scenarios again after a comparison that RAISED earlier in the thread (an array-like
   # leaf): == keeps no state from one comparison to the next
   for name in ('shared_defaults', 'namedtuple_subclass', 'mixed_containers'):
@@ -431,6 +454,29 @@ def raising_eq_prelude():
 def execute(case):
   if case.get('after_raising_eq'):
     raising_eq_prelude()
+  if case.get('scenario') == 'transitive_mixed':
+    # == is transitive also across values Python calls equal although their types differ (a named
+    # tuple and a plain tuple of the same literals, a defaultdict and a dict, 1 and True)
+    import collections
+    f = graphs.node_fn(1, 0)
+    p = graphs.NT(1, 2)
+    dd = collections.defaultdict(list, k=[1])
+    triples = [
+        (fdl.Config(f, p=p, q=p), fdl.Config(f, p=(1, 2), q=(1, 2)), fdl.Config(f, p=graphs.NT(1, 2), q=graphs.NT(1, 2))),
+        (fdl.Config(f, p=[p, p]), fdl.Config(f, p=[(1, 2), (1, 2)]), fdl.Config(f, p=[graphs.NT(1, 2), graphs.NT(1, 2)])),
+        (fdl.Config(f, p=1), fdl.Config(f, p=True), fdl.Config(f, p=1.0)),
+        (fdl.Config(f, p=dd, q=dd), fdl.Config(f, p={'k': [1]}, q={'k': [1]}),
+         fdl.Config(f, p=collections.defaultdict(list, k=[1]), q=collections.defaultdict(list, k=[1]))),
+    ]
+    obs = {'refl': (True, False), 'pairs': [], 'reqs': [], 'trans': True}
+    for a, b, c in triples:
+      ab, bc, ac = safe_eq(a, b)[0], safe_eq(b, c)[0], safe_eq(a, c)[0]
+      if any(isinstance(x, str) for x in (ab, bc, ac)):
+        obs['trans'] = f'== raised: {ab}, {bc}, {ac}'
+      elif ab and bc and not ac:
+        obs['trans'] = False
+        obs['trans_witness'] = [repr(a)[:120], repr(b)[:120], repr(c)[:120]]
+    return obs, None
   if case.get('scenario'):
     obs = {'refl': (True, False), 'pairs': [], 'reqs': []}
     for a, b, expect in scenario_pairs(case['scenario']):
@@ -490,6 +536,7 @@ def compare(real, model):
 
 
 def oracle(case, real):
+  deferred = None
   if real['refl'] != (True, False):
     return {'what': '== is not reflexive (or raises)', 'observed': real['refl']}
   for rec in real['pairs']:
@@ -502,7 +549,14 @@ def oracle(case, real):
     if rec['preserving'] is None:
       continue
     if rec['preserving'] and not rec['eq']:
-      return {'what': 'an equality-preserving rewrite changed ==', 'rec': rec}
+      f = {'what': 'an equality-preserving rewrite changed ==', 'rec': rec}
+      if rec['rewrite'] == 'default_alias' and rec['builds_equal']:
+        # recorded finding: an argument that IS the default object of another, unset parameter is
+        # cloned by deepcopy while the unset parameter keeps the callable's own default
+        f['class'] = 'deepcopy-default-alias'
+        deferred = deferred or f
+        continue
+      return f
     alias_rw = rec['rewrite'] in ('rb_unshare', 'rb_share')
     if not rec['preserving'] and rec['eq'] and not (alias_rw and rec.get('same_structure', rec['builds_equal'])):
       # (an alias rewrite on an immutable object may leave the object graph as it was)
@@ -510,8 +564,8 @@ def oracle(case, real):
     if rec['eq'] and not rec['builds_equal']:
       return {'what': 'equal configurations build different object graphs', 'rec': rec}
   if real.get('trans') is False or isinstance(real.get('trans'), str):
-    return {'what': '== is not transitive', 'observed': real.get('trans')}
-  return None
+    return {'what': '== is not transitive', 'observed': real.get('trans'), 'witness': real.get('trans_witness')}
+  return deferred
 
 
 def nontrivial(case, real):
@@ -523,7 +577,7 @@ def nontrivial(case, real):
 def run(tier):
   code = family.run_check(
       'C06', tier, lean_module='C06', cases=cases, execute=lambda c: strip(execute(c)),
-      compare=compare, oracle=oracle, nontrivial=nontrivial, widen=None,
+      compare=compare, oracle=oracle, classify=lambda case, fail: fail.get('class'), nontrivial=nontrivial, widen=None,
       time_budget=150 if tier == 'quick' else 1500,
       extra_coverage={'rule': 'random configuration DAGs (NaN-free leaves on which == coincides with '
                       'identity of printed value, dict arguments with keys of mixed types holding shared '
